@@ -67,6 +67,18 @@ ASSUMPTIONS = [
 
 TB = [0.0, 2.0 ** -7, 0.5, 4.0, 1e9]
 FB = [0.0, 1.0, 125.0, 1e4, 1e7]
+ALPHABETS = {
+    "quick": (list(TB), list(FB)),
+    # thorough: the matcher's default buffers (0.01 s, 100 Hz) and two more regular values per axis
+    "thorough": (sorted(TB + [0.01, 1.0]), sorted(FB + [100.0, 1000.0])),
+}
+
+
+def use_tier(tier):
+    """Select the buffer alphabet of a tier (a run explores one tier; replays carry the tier in the case)."""
+    global TB, FB, NEGATIVES
+    TB, FB = ALPHABETS[tier or "quick"]
+    NEGATIVES = negatives()
 NEG = [-1.0, -(2.0 ** -20)]
 REGULAR_TB = (2.0 ** -7, 4.0)  # buffer vectors whose results are fed to a further buffering (chains)
 REGULAR_FB = (1.0, 1e4)
@@ -156,7 +168,7 @@ for _pid, _t, _c in POOL:
 def bounds(tier):
     return {
         "pool": {t: [p[0] for p in POOL if p[1] == t] for t in gm.TYPES},
-        "time_buffers": TB, "freq_buffers": FB, "negative_buffers": NEG,
+        "time_buffers": ALPHABETS[tier][0], "freq_buffers": ALPHABETS[tier][1], "negative_buffers": NEG,
         "chain_depth": DEPTH[tier], "containment_tolerance_scaled": TOL, "bounds_tolerance_relative": TOL,
         "large_coordinate_threshold_on_zero_buffer_axis": LARGE,
         "thin_polygon_threshold_buffer_units": THIN, "excess_grid": "{1,2,5}x10^k rounded up, floor %g" % GRID_FLOOR,
@@ -381,9 +393,13 @@ def eval_state(root, chain, g):
     gtype = g.type
     c = raw(g.coordinates)
     case = {"geom": root, "chain": [list(b) for b in chain]}
+    if TB is not ALPHABETS["quick"][0]:
+        case["tier"] = "thorough"
     out = Out(case, key=[gtype, c, list(last)])
     gid = geom_id(root, depth)
     base_cls = {"fn": "buffer_geometry", "geom": gid, "root": root, "depth": depth}
+    if TB is not ALPHABETS["quick"][0]:
+        base_cls["alphabet"] = "thorough"
     ext = gm.extent(gtype, c)
     time_only = gtype in TIME_ONLY
     shp0 = None if time_only else to_shape(gtype, c)
@@ -536,6 +552,7 @@ def canon(g, last):
 
 def run_block(block, rec):
     root = block["root"]
+    use_tier(block["tier"])
     max_depth = DEPTH[block["tier"]]
     gtype, coords = POOL_BY_ID[root]
     g0 = mkgeom(gtype, coords)
@@ -575,6 +592,7 @@ def rebuild(case):
 
 
 def replay_case(case):
+    use_tier(case.get("tier"))
     chain = [(float(tb), float(fb)) for tb, fb in case["chain"]]
     g = rebuild(case)
     out, _, _ = eval_state(case["geom"], chain, g)
